@@ -13,6 +13,11 @@ Proof. split; reflexivity. Qed.
 Theorem C20_only_port_api_and_memory_primitives :
   forallb (fun b => forallb (allowed port_api) (snd (fst b))) builds = true.
 Proof. vm_compute. reflexivity. Qed.
+(* beyond the property's twelve: position-independent builds and five other targets (Windows x86-64 / x86, AArch64,
+   32-bit ARM and RISC-V bare metal), 14 further configurations *)
+Theorem C20_further_configurations :
+  List.length extra_builds = 14%nat /\ forallb (fun b => forallb (allowed port_api) (snd b)) extra_builds = true.
+Proof. vm_compute. split; reflexivity. Qed.
 Theorem C20_port_api_is_a_name_space : forallb is_port_name port_api = true.
 Proof. vm_compute. reflexivity. Qed.
 Theorem C20_no_library_or_os_header :
